@@ -396,6 +396,12 @@ enum ImplicitMappingState {
     Mapping,
 }
 
+/// The maximum number of nested block collections.
+///
+/// Flow collections are limited by the width of [`Scanner::flow_level`]; this is the same limit for
+/// block collections.
+const BLOCK_NESTING_MAX: usize = 255;
+
 /// The YAML scanner.
 ///
 /// This corresponds to the low-level interface when reading YAML. The scanner emits token as they
@@ -1524,7 +1530,7 @@ impl<'input, T: Input> Scanner<'input, T> {
         self.skip_non_blank();
 
         // generate BLOCK-SEQUENCE-START if indented
-        self.roll_indent(mark.col, None, TokenType::BlockSequenceStart, mark);
+        self.roll_indent(mark.col, None, TokenType::BlockSequenceStart, mark)?;
         let found_tabs = self.skip_ws_to_eol(SkipTabs::Yes)?.found_tabs();
         self.input.lookahead(2);
         if found_tabs && self.input.next_char_is('-') && is_blank_or_breakz(self.input.peek_nth(1))
@@ -2370,7 +2376,7 @@ impl<'input, T: Input> Scanner<'input, T> {
                 None,
                 TokenType::BlockMappingStart,
                 start_mark,
-            );
+            )?;
         } else if let Some(state @ ImplicitMappingState::Possible) =
             self.implicit_flow_mapping_states.last_mut()
         {
@@ -2488,7 +2494,7 @@ impl<'input, T: Input> Scanner<'input, T> {
                 Some(sk.token_number),
                 TokenType::BlockMappingStart,
                 sk.mark,
-            );
+            )?;
             self.roll_one_col_indent();
 
             self.simple_keys.last_mut().unwrap().possible = false;
@@ -2512,7 +2518,7 @@ impl<'input, T: Input> Scanner<'input, T> {
                     None,
                     TokenType::BlockMappingStart,
                     start_mark,
-                );
+                )?;
             }
             self.roll_one_col_indent();
 
@@ -2539,9 +2545,9 @@ impl<'input, T: Input> Scanner<'input, T> {
         number: Option<usize>,
         tok: TokenType<'input>,
         mark: Marker,
-    ) {
+    ) -> ScanResult {
         if self.flow_level > 0 {
-            return;
+            return Ok(());
         }
 
         // If the last indent was a non-block indent, remove it.
@@ -2557,6 +2563,11 @@ impl<'input, T: Input> Scanner<'input, T> {
         }
 
         if self.indent < col as isize {
+            // Block collections nest without bound otherwise; consumers that recurse once per
+            // level (`Parser::load`, dropping the loaded tree) would overflow the stack.
+            if self.indents.len() >= BLOCK_NESTING_MAX {
+                return Err(ScanError::new_str(self.mark, "recursion limit exceeded"));
+            }
             self.indents.push(Indent {
                 indent: self.indent,
                 needs_block_end: true,
@@ -2568,6 +2579,7 @@ impl<'input, T: Input> Scanner<'input, T> {
                 None => self.tokens.push_back(Token(Span::empty(mark), tok)),
             }
         }
+        Ok(())
     }
 
     /// Pop indentation levels from the stack as much as needed.
